@@ -17,10 +17,10 @@ COMPONENTS = [b"a", b"b", b"d", b"ad", b"d-old", b"d.c", b"d0", b"d e", b"d(", b
 # above '/': they are neighbours in the staging area with nothing between "<x>/..." and "<x><ext>/..."
 PREFIX_PAIRS = [(b"a", b"ad"), (b"a", b"about"), (b"d", b"d0"), (b"lib", b"lib2"), (b"test", b"tests"),
                 (b"src", b"src_old"), (b"f1", b"f10"), (b"x", b"xy"), (b"d", b"dA"),
-                (b"util", b"util-test"), (b"lib", b"lib.d"), (b"e", b"e+")]
+                (b"util", b"util-test"), (b"lib", b"lib.d"), (b"e", b"e+"), (b"a", b"a\\b"), (b".goit\\zz", b"x\\")]
 PLAIN = [b"a", b"b", b"c", b"d", b"e", b"f1", b"f2", b"sub", b"lib", b"src"]
 
-BRANCHES = [b"dev", b"feat", b"a", b"ab", b"a-b", b"a.b", b"b", b"main2", b"x_1", b"Z", b"rel.1", b"m", b".wip", b"-d", b"%s", b"dev.tmp", b"a.tmp", b"HEAD", b"index"]
+BRANCHES = [b"dev", b"feat", b"head", b"Head", b"a", b"ab", b"a-b", b"a.b", b"b", b"main2", b"x_1", b"Z", b"rel.1", b"m", b".wip", b"-d", b"%s", b"dev.tmp", b"a.tmp", b"HEAD", b"index"]
 HOSTILE_BRANCHES = [b"../../HEAD", b"a/b", b"..", b".", b"a: b", b"", b"x\\y", b"../x", b"refs/heads/q",
                     b"a\nx y z", b"t\tab", b"nl\n", b"q\rr"]
 
